@@ -999,6 +999,50 @@ def rule_r10(prog, res):
                         'Code/Subcode chain reads a truncated fault code')
 
 
+# ------------------------------------------------------------------ R11
+def rule_r11(prog, res):
+    res.rule('R11', 'a fault keeps the message it was given unless that '
+             'message is empty; SOAP answers every fault with 500')
+    fc = prog.cls('spyne.model.fault:Fault')
+    f = fc.methods.get('__init__')
+    if f is None:
+        raise AnalysisError('Fault.__init__', 'not found')
+    bad = [c for c in calls_in(f.node) if isinstance(c.func, ast.Attribute)
+           and isinstance(c.func.value, ast.Name) and
+           c.func.value.id == 'faultstring' and c.func.attr in (
+               'isspace', 'strip', 'lstrip', 'rstrip', 'lower', 'upper',
+               'title', 'replace', 'split', 'encode', 'decode', 'format')]
+    stores = [a for a in walk_no_defs(f.node) if isinstance(a, ast.Assign)
+              and any(unparse(t) == 'self.faultstring' for t in a.targets)]
+    res.floor('R11', 'stores of the fault message', len(stores), 1)
+    res.ob('R11', f.where, 'Fault.__init__: faultstring %s' % (
+        'is inspected with %s' % [unparse(c)[:30] for c in bad] if bad else
+        'is stored as given (fallback only when falsy)'),
+        'VIOLATED' if bad else 'ok')
+    for c in bad[:1]:
+        res.finding('R11', 'Fault.__init__|message-rewritten|%s' %
+                    c.func.attr, '%s:%d' % (f.module.relpath, c.lineno),
+                    'Fault.__init__ tests or transforms the message with %s: '
+                    'messages that fail the test (whitespace-only text) are '
+                    'replaced by the class name, so the client does not '
+                    'receive the fault the user raised' % unparse(c)[:40])
+    # SOAP: constant 500 whatever the fault class
+    s11 = prog.cls('spyne.protocol.soap.soap11:Soap11')
+    g = s11.methods.get('fault_to_http_response_code')
+    if g is not None:
+        rets = [r for r in walk_no_defs(g.node) if isinstance(r, ast.Return)]
+        ok = len(rets) == 1 and unparse(rets[0].value) == 'HTTP_500'
+        res.ob('R11', g.where, 'Soap11.fault_to_http_response_code returns '
+               '%s' % [unparse(r.value) for r in rets],
+               'ok' if ok else 'VIOLATED')
+        if not ok:
+            res.finding('R11', 'Soap11.fault_to_http_response_code|not-'
+                        'constant', g.where, 'the SOAP status is no longer '
+                        'the constant 500 (%s): SOAP 1.1 over HTTP answers '
+                        'every fault with 500' % [unparse(r.value)
+                                                  for r in rets])
+
+
 def run(prog, res, tier):
     res.run_rule(rule_r8, prog, res)
     res.run_rule(rule_r1, prog, res, tier)
@@ -1009,6 +1053,7 @@ def run(prog, res, tier):
     res.run_rule(rule_r6, prog, res)
     res.run_rule(rule_r9, prog, res)
     res.run_rule(rule_r10, prog, res)
+    res.run_rule(rule_r11, prog, res)
 
 
 _A = 'spyne/application.py'
@@ -1019,6 +1064,19 @@ _H = 'spyne/protocol/dictdoc/hier.py'
 _F = 'spyne/model/fault.py'
 
 MUTANTS = [
+    Mutant('blank-message-replaced', 'R11', 'fire', 'spyne/model/fault.py',
+           in_func('Fault.__init__',
+                   "self.faultstring = faultstring or self.get_type_name()",
+                   "self.faultstring = (faultstring if faultstring and not "
+                   "faultstring.isspace() else self.get_type_name())"),
+           'message-rewritten'),
+    Mutant('soap-405-for-not-allowed', 'R11', 'fire',
+           'spyne/protocol/soap/soap11.py',
+           in_func('Soap11.fault_to_http_response_code',
+                   "        return HTTP_500",
+                   "        if isinstance(fault, RequestNotAllowed):\n"
+                   "            return HTTP_405\n        return HTTP_500"),
+           'not-constant'),
     Mutant('to-list-skips-empty-actor', 'R10', 'fire', 'spyne/model/fault.py',
            in_func('Fault.to_list',
                    "        else:\n            retval.append(\"\")\n\n"
